@@ -106,6 +106,16 @@ def structural(res, wd, drv, tier):
     if not r["ok"]:
         res.infra_errors.append(r["error"] or "tlc failed"); return []
     res.add_tlc(r)
+    if tier == "thorough":
+        # keys 1..10 reach depth 3 (inner nodes split, merge and rebalance): invariants only, the graph is too large to replay
+        r10 = tlc.run_tlc(os.path.join(SPEC, "MC_BTreeSeq.tla"), os.path.join(SPEC, "MC_BTreeSeq10.cfg"), os.path.join(wd, "k10"), timeout=2700,
+                          workers=min(12, NCPU), heap="16g")
+        if r10["violated"]:
+            res.infra_errors.append("TLC: %s violated by spec/BTreeSeq.tla (MC_BTreeSeq10.cfg)" % r10["violated"])
+        elif not r10["ok"]:
+            res.infra_errors.append("BTreeSeq keys 1..10: " + str(r10["error"])[-500:])
+        else:
+            res.add_tlc(r10); res.cov["btreeseq_keys10_states"] = r10["distinct"]
     g = graphwalk.Graph(dot)
     init, walks = covering_tour(g, 1500 if tier == "quick" else 4000)
     res.cov["graph_states"] = len(g.labels); res.cov["graph_edges"] = len(g.edges)
@@ -154,7 +164,7 @@ def structural(res, wd, drv, tier):
 
 def random_histories(res, wd, drv, tier):
     rng = random.Random(seed() * 7919 + 3)
-    n = 60 if tier == "quick" else 1200
+    n = 60 if tier == "quick" else 400
     jobs_in = []
     for i in range(n):
         tree = "d3" if i % 3 else "d256"
@@ -222,10 +232,10 @@ def random_histories(res, wd, drv, tier):
 def run(tier, replay_path=None):
     res = Result(PID, tier)
     wd = workdir(PID)
+    os.makedirs(os.path.join(wd, "k10"), exist_ok=True)
     drv = build.harness_cxx(os.path.join(HARNESS, "btreedrv.cpp"), os.path.join(BUILD, "harness", "btreedrv"))
     if replay_path:
-        p = subprocess.run([drv], input=open(replay_path).read(), capture_output=True, text=True)
-        print(p.stdout[-20000:]); return 0
+        return c25.replay(res, wd, drv, replay_path, PID)
     only = set(filter(None, os.environ.get("VERIF_C26_ONLY", "").split(",")))      # developer aid: seq,hist,dfs,rnd,stress
     on = lambda ph: not only or ph in only
     from concurrent.futures import ThreadPoolExecutor
@@ -234,14 +244,14 @@ def run(tier, replay_path=None):
         fs = ex.submit(structural, res, wd, drv, tier) if on("seq") else None
         fh = ex.submit(random_histories, res, wd, drv, tier) if on("hist") else None
         fd = ex.submit(c25.coop_systematic, res, wd, drv, tier, "d3", PID, 3) if on("dfs") else None
-        fr = ex.submit(c25.coop_random, res, wd, drv, tier, ("d3", "d256"), PID, 500 if tier == "quick" else 20000, 2) if on("rnd") else None
+        fr = ex.submit(c25.coop_random, res, wd, drv, tier, ("d3", "d256"), PID, 500 if tier == "quick" else 3000, 2) if on("rnd") else None
         jobs = []
         for f in (fs, fh, fd, fr):
             if f:
                 jobs += f.result()
     log("C26: model checking, replays and cooperative runs %.0fs" % (time.time() - t0)); t0 = time.time()
     if on("stress"):
-        jobs += c25.stress(res, wd, drv, tier, ("d256", "d3"), PID, 6 if tier == "quick" else 60)
+        jobs += c25.stress(res, wd, drv, tier, ("d256", "d3"), PID, 6 if tier == "quick" else 20)
     c25.validate(res, wd, "MCT_C26", jobs, PID)
     log("C26: stress and trace validation %.0fs" % (time.time() - t0))
     return finish(res, "model_checking", assumptions=[
